@@ -200,3 +200,8 @@ pub fn collector_stats() -> Stats {
 pub fn touch_sender() -> Option<usize> {
     crate::collector::global_collector::verif_touch_sender()
 }
+
+/// Number of commands waiting in the calling thread's overflow list (its queue was full).
+pub fn parked_commands() -> Option<usize> {
+    crate::collector::global_collector::verif_parked_commands()
+}
